@@ -22,4 +22,9 @@ VerbsCore      == {"Status", "MetricDetailBad", "AddCluster", "AddClusterBadHc",
 VerbsRelisten  == {"AddHFront", "AddBackend", "RemoveBackend", "RemoveListener", "AddListener", "Activate", "Deactivate"}
 HaPreamble == <<[k |-> "AddListener", a |-> "hA"], [k |-> "Activate", a |-> "hA"]>>
 AfterStopKinds == {"SoftStop", "Status"}
+\* C07, commands that touch sockets under OS-level faults (Faults = TRUE): the listener life-cycle
+VerbsFaults    == {"AddListener", "RemoveListener", "Activate", "Deactivate", "UpdateListener", "ReturnSockets"}
+\* ... and what a client is served once the address is free again (one http route, one tcp route)
+VerbsFaultsServe == {"Activate", "Deactivate", "RemoveListener", "AddListener"}
+ServeNothingPreamble == <<[k |-> "AddListener", a |-> "hA"], [k |-> "AddListener", a |-> "tC"]>>
 =============================================================================
